@@ -465,6 +465,14 @@ func traceLine(work, line string, lineNo int, r *rng, waterEvery int) {
 				if g.UMS > g.DSUMM+1e-9*(1+math.Abs(g.DSUMM)) || g.UMS < -1e-9 {
 					oracleFail("dissolved-exceeds-applied line=%d zeit=%d ums=%v dsumm=%v", lineNo, zeit, g.UMS, g.DSUMM)
 				}
+				// C07, the ammonium pair of the same clause: what has been nitrified of the ammonium fertiliser never exceeds the ammonium
+				// applied (also across measurement-overwrite days), and the N2O counters fed by it are finite and never negative
+				if g.NH4UMS > g.NH4Sum+1e-9*(1+math.Abs(g.NH4Sum)) || g.NH4UMS < -1e-9 {
+					oracleFail("nitrified-exceeds-ammonium-applied line=%d zeit=%d nh4ums=%v nh4sum=%v mz=%d", lineNo, zeit, g.NH4UMS, g.NH4Sum, g.MZ)
+				}
+				if !(g.N2onitsum >= -1e-9) || !(g.N2onitDaily >= -1e-9) || !finite(g.N2onitsum, g.N2onitDaily) {
+					oracleFail("n2o-counter-negative line=%d zeit=%d n2onitsum=%v n2onitdaily=%v", lineNo, zeit, g.N2onitsum, g.N2onitDaily)
+				}
 				prevDayEndC1, prevDayEndZeit = c1, zeit
 				prevDayEndCnt = [3]float64{g.OUTSUM, g.DRAINLOSS, g.CUMDENIT}
 				prevDayEndStorage, prevDayEndGRW = storage(g, 1), g.GRW
